@@ -10,7 +10,7 @@ TRUST = ("Trusted base: the reference model and validator in harness/hbv (indepe
 
 CHECKS = {
     "C01": dict(cat="exploration", tech="model-based stateful PBT (proptest) vs association-list model + structure validator",
-                text="Generated-input search: ~24k (quick) / 400k (thorough) operation histories x hash plans x capacity histories on both scanner back-ends, every step compared with an association-list model and validated structurally (tag + probe reachability of every slot). Refutes, never proves; coverage classes are measured and reported.",
+                text="Generated-input search: 60k (quick) / 1.5M (thorough) operation histories x hash plans x capacity histories on both scanner back-ends (one program in fifteen on HashMap<E,E> over the 20 element layouts, incl. zero-sized and 400-byte pairs), every step compared with an association-list model and validated structurally (tag + probe reachability of every slot); by-reference Extend impls, From<[(K,V);N]>, entry chains through returned entries. Refutes, never proves; coverage classes are measured and reported.",
                 ref="9.1"),
     "C03": dict(cat="exploration", tech="stateful PBT with per-element life-cycle ledger and allocation ledger (tracked elements, checking allocator)",
                 text="Generated histories over HashMap, HashSet, HashTable and the tracked element layouts (incl. a zero-sized type with drop glue) with tracked elements; every owning iterator is cut at a generated point; a collection created with capacity 0 must own no block until an operation could have given it an element or a capacity; a registry records construct/clone/drop per element serial and the checking allocator every allocate/deallocate with its layout. Double drops, leaks, layout mismatches and blocks left over are reported per step and at the end of each case.",
@@ -22,10 +22,10 @@ CHECKS = {
                 text="HashMap, two-HashSet and HashTable histories under 8 modes of broken Hash/Eq (for tables: broken caller-side hasher / eq closures) driven by tapes stored in the case, Index under catch_unwind; only safety is judged: structure validator, checking allocator, element ledger, len()==yielded count, watchdog.",
                 ref="9.5"),
     "C06": dict(cat="exploration", tech="model-based stateful PBT of the explicit-hash HashTable API vs multiset model",
-                text="Histories over HashTable with caller-supplied hashes (collisions in position, tag or both, exact duplicates), every step compared with a multiset model keyed by a unique id per inserted element; iter_hash superset/no-duplicate predicate; structure validator incl. probe reachability.",
+                text="Histories over HashTable with caller-supplied hashes (collisions in position, tag or both, exact duplicates), every step compared with a multiset model keyed by a unique id per inserted element; iter_hash superset/no-duplicate predicate, also consumed through fold / count / a clone; the entry returned by insert_unique is removed and re-filled through its VacantEntry; HashTable over the element-layout family and tables with 2^16 elements / several hundred elements under one hash; structure validator incl. probe reachability.",
                 ref="9.6"),
     "C09": dict(cat="exploration", tech="PBT over (state, iterator kind, switch-over prefix, continuation) with exact-length oracle",
-                text="Every iterator kind of HashMap, HashSet (incl. the algebra iterators) and HashTable, also through IntoIterator for & / &mut, is driven from generated states with a generated prefix and continuation (next/fold/for_each/clone/count/drop); size_hint and len checked at every step, yielded multiset compared with the model; a few cases per run hold 65 536 .. 136 000 elements (counting statements).",
+                text="Every iterator kind of HashMap, HashSet (incl. the algebra iterators) and HashTable, also through IntoIterator for & / &mut and on the 20 element layouts (yield counts by next()), is driven from generated states with a generated prefix and continuation (next/fold/for_each/clone/clone_from/count/drop); size_hint and len checked at every step, yielded multiset compared with the model; a few cases per run hold 65 536 .. 136 000 elements (counting statements).",
                 ref="9.9"),
     "C10": dict(cat="exploration", tech="PBT over (state, predicate subset, predicate mutation, early-drop point) vs model subset semantics",
                 text="retain / extract_if / drain on HashMap, HashSet, HashTable and the element-layout family (zero-sized, over-aligned; extract_if answers by call index) from generated states with generated subsets and cut points; predicate call multiset, yielded items, survivors, mutations and allocation retention are compared with the model; drains are dropped early or consumed by next / fold / for_each / count; a few cases per run hold more than 2^16 elements (predicate call counts).",
@@ -37,10 +37,10 @@ CHECKS = {
                 text="Long capped churn histories under all hash plans, six removal patterns, bulk removals and clone-and-continue (HashMap), plus HashTable programs with lookups / iter_hash of absent hashes on tombstone-saturated tables; allocation_size() must stay below with_capacity(4 x peak live); an insert into a table at most half full of live elements must not enlarge it; structural invariant V2 (an EMPTY slot exists, growth_left cannot consume the last) after every step; watchdog on every operation.",
                 ref="9.13"),
     "C14": dict(cat="exploration", tech="differential PBT: entry-style API chains vs plain get/insert/remove on the model, biased to full load",
-                text="entry, entry_ref, raw_entry(_mut) via from_key/from_key_hashed_nocheck/from_hash, rustc_entry: discriminant, return values and effects of method chains compared with the model from states biased to growth_left==0, tombstones and the singleton.",
+                text="entry, entry_ref, raw_entry(_mut) via from_key/from_key_hashed_nocheck/from_hash, rustc_entry: discriminant, return values and effects of method chains compared with the model from states biased to growth_left==0, tombstones and the singleton; chains through the entry a vacant insert returns (replace_entry_with(None), then the Vacant entry it hands back); one program in eleven creates entry objects on the element-layout family.",
                 ref="9.14"),
     "C02": dict(cat="exploration", tech="PBT over safe-API programs x 20 element layouts x object life cycles (drop / mem::forget), monitored by a guarded checking allocator, reference validation, structure validator and debug/UB-precondition assertions",
-                text="Generated programs over HashTable/HashSet/HashMap for 20 (size, align) element layouts incl. zero-sized (with and without drop glue), over-aligned, 200-byte and tracked ones; iterators, drains, extract_ifs, entries are advanced j steps then dropped or forgotten and the collection keeps being used. Out-of-bounds writes hit red zones, freed blocks are poisoned and quarantined, every reference is checked for alignment, membership in the data part of the live block and an element self-check; runner crashes are captured and minimised.",
+                text="Generated programs over HashTable/HashSet/HashMap for 20 (size, align) element layouts incl. zero-sized (with and without drop glue), over-aligned, 200-byte and tracked ones; iterators, drains, extract_ifs, entries are advanced j steps, formatted with {:?} (element Debug impls check what they are handed), then dropped or forgotten and the collection keeps being used. Out-of-bounds writes hit red zones, freed blocks are poisoned and quarantined, every reference is checked for alignment, membership in the data part of the live block and an element self-check; runner crashes are captured and minimised.",
                 ref="9.2"),
     "C07": dict(cat="exploration", tech="PBT over pairs of set histories vs mathematical sets (BTreeSet), size_hint bound checks",
                 text="Two HashSets with independent histories/capacities/hash plans: union, intersection, difference, symmetric_difference (next/fold/clone, size_hint bounds at every step), predicates and ==, operator and assigning forms, replace/take/get_or_insert/get_or_insert_with (incl. refused non-equivalent value)/entry, compared with BTreeSet results as multisets.",
@@ -61,7 +61,7 @@ CHECKS = {
                 text="capacity_to_buckets, bucket_mask_to_capacity, calculate_layout_for, TableLayout::new and the probe sequence are evaluated through read-only hooks on both group widths over exhaustive low ranges, +-4096 (quick) / +-65536 (thorough) neighbourhoods of every 2^k and 7/8*2^k up to usize::MAX, extreme (size, align) pairs and seeded random 64-bit inputs; exhaustive only in the stated ranges.",
                 ref="9.17"),
     "C18": dict(cat="exploration", tech="differential PBT (SSE2 build vs portable twin in one process, step-wise transcript) + exhaustive byte-window enumeration of the scanner primitives vs bytewise reference",
-                text="Every generated map/table case runs on both back-ends; both must satisfy the model at every step and produce identical per-step digests of (len, sorted contents). The scanner primitives are compared with their bytewise definitions on all 2^16 values of every adjacent byte pair in several background groups plus random groups.",
+                text="Every generated map/table case (lookups, inserts, removals, entries, shared iterators with every continuation, iter_hash) runs on both back-ends; both must satisfy the model at every step and produce identical per-step digests of (len, sorted contents). The scanner primitives are compared with their bytewise definitions on all 2^16 values of every adjacent byte pair in several background groups plus random groups.",
                 ref="9.18"),
     "C20": dict(cat="exploration", tech="PBT over (entry stream with duplicates, claimed size hint, error position, format) with round-trip, last-wins model and allocation ledger",
                 text="serde_json round trips and serde value deserializers over lying iterators (hints: none, exact, understated, overstated, huge) for maps and sets of tracked elements and of (), u8, u64, bool, String elements: equality after round trip, last value wins, errors returned with every built element dropped once and nothing left allocated, reservation before the first read bounded by with_capacity(4096), deserialize_in_place clears first.",
